@@ -159,7 +159,7 @@ theorem initArray_wf (a : Arr) (h : Hdr) : (initArray a h).WF := by
   constructor <;> intro i hi <;> simp [initArray] at *
   omega
 
-theorem initProxy_wf (raw : List Int) (h : Hdr) : (initProxy raw h).WF := by
+theorem initProxy_wf (raw : List Int) (h : Hdr) (io : IOp := {}) : (initProxy raw h io).WF := by
   constructor <;> intro i hi <;> simp [initProxy] at *
 
 /-! ### simulation: every concrete step is a step of the documented model -/
